@@ -59,3 +59,7 @@ def verify_receiver_table(run):
 
 # trust boundaries: results of these calls are not peer input (the application answers for what it returns)
 TRUSTED = {"self.app"}
+
+# receive buffers that are bytearrays (their slices are unhashable)
+BA_SEEDS = {(HT + ":Parsent", "msg"), (HT + ":EventSource", "raw"), (HT + ":Parsent", "body"), (TS + ":Remoter", "rxbs"),
+            (TC + ":Client", "rxbs"), (None, "raw")}
